@@ -245,8 +245,37 @@ def run_masks(shard, rec, B):
                         check_map_state(rec, B, G, PG, qubits, N, rng)
 
 
+def _rotmap_mixed_widths(rec, B, rng):
+    """One process asks for the rotation maps of generators on registers of different sizes held in integer arrays of
+    different widths, chosen so that the raw storage of two different generators coincides (X on qubit 0 of 1 qubit in int64
+    words = 16 bytes = X on qubit 0 of 8 qubits in bytes): each answer is that generator's own map, in either order of asking.
+    A refusal of a narrow element type is not judged."""
+    for rnd in range(6):
+        N0 = 1 + rnd % 3
+        G0 = gen.rand_string(rng, N0).astype(np.int64)
+        while not G0.any():
+            G0 = gen.rand_string(rng, N0).astype(np.int64)
+        PG = 2 * int(rng.integers(2))
+        fam = [G0] + [np.frombuffer(G0.tobytes(), dtype=dt).copy() for dt in (np.int32, np.int16, np.uint8, np.int8)]
+        if rnd % 2:
+            fam = fam[::-1]
+        for G in fam:
+            case = ["mixed widths", str(G.dtype), len(G) // 2, O.show((G != 0).astype(np.int64), PG)]
+            try:
+                M = B.stabilizer.clifford_rotation_map(B.Pauli(G, PG))
+                lg, lp = B.gsps(M)
+            except Exception as e:
+                rec.refusal("rotmap.mixed_widths:%s:%s" % (G.dtype, type(e).__name__))
+                continue
+            eg, ep = O.map_of_rotation((G != 0).astype(np.int64), PG)
+            rec.check("rotmap.mixed_widths", lg.shape == eg.shape and np.array_equal(lg, eg) and np.array_equal(lp, ep), case, True,
+                      expected=[O.show(g, p) for g, p in zip(eg[:6], ep[:6])], observed="shape %r" % (lg.shape,))
+
+
 def run_rand(shard, rec, B):
     rng = gen.rng_for(rec)
+    if B.name == "np" and not shard.get("forms"):
+        _rotmap_mixed_widths(rec, B, rng)
     Ns = [3, 4, 5, 6, 8, 11, 16, 25, 40] if B.name == "np" else [3, 4, 5, 8, 12]
     for t in range(shard["n"]):
         N = Ns[t % len(Ns)]
